@@ -67,7 +67,8 @@ Definition flags_le (l' l : list schunk) (P : nat -> Prop) : Prop :=
   length l' = length l /\
   forall i c', nth_error l' i = Some c' ->
     exists c, nth_error l i = Some c /\ sc_aband c' = sc_aband c /\
-              (sc_acked c' = true -> sc_acked c = true \/ P i).
+              (sc_acked c' = true -> sc_acked c = true \/ P i) /\
+              (sc_len c' = sc_len c \/ sc_len c' = 0).
 
 Lemma flags_le_refl l P : flags_le l l P.
 Proof. split; [reflexivity|]. intros i c' H. exists c'. repeat split; auto. Qed.
@@ -75,13 +76,15 @@ Proof. split; [reflexivity|]. intros i c' H. exists c'. repeat split; auto. Qed.
 Lemma flags_le_trans l1 l2 l3 (P : nat -> Prop) : flags_le l3 l2 P -> flags_le l2 l1 P -> flags_le l3 l1 P.
 Proof.
   intros [L1 H1] [L2 H2]. split; [congruence|]. intros i c3 E3.
-  destruct (H1 i c3 E3) as (c2 & E2 & A2 & F2). destruct (H2 i c2 E2) as (c1 & E1 & A1 & F1).
-  exists c1. split; [assumption|]. split; [congruence|]. intros Ha. destruct (F2 Ha) as [X|X]; [apply F1; assumption|right; assumption].
+  destruct (H1 i c3 E3) as (c2 & E2 & A2 & F2 & N2). destruct (H2 i c2 E2) as (c1 & E1 & A1 & F1 & N1).
+  exists c1. split; [assumption|]. split; [congruence|]. split.
+  - intros Ha. destruct (F2 Ha) as [X|X]; [apply F1; assumption|right; assumption].
+  - destruct N2 as [N2|N2]; [|right; assumption]. destruct N1 as [N1|N1]; [left|right]; congruence.
 Qed.
 
 Lemma flags_le_weaken l' l (P Q : nat -> Prop) : (forall i, P i -> Q i) -> flags_le l' l P -> flags_le l' l Q.
 Proof.
-  intros PQ [L H]. split; [assumption|]. intros i c' E. destruct (H i c' E) as (c & E1 & A & F).
+  intros PQ [L H]. split; [assumption|]. intros i c' E. destruct (H i c' E) as (c & E1 & A & F & N).
   exists c. repeat split; try assumption. intros Ha. destruct (F Ha); [left; assumption|right; apply PQ; assumption].
 Qed.
 
@@ -155,7 +158,7 @@ Proof.
     + cbn [st_infl]. split; [apply length_upd_nth|].
       intros k c' Ek. rewrite nth_upd_nth in Ek. destruct (Nat.eqb k (Z.to_nat i)) eqn:Ekk.
       * apply Nat.eqb_eq in Ekk. subst k. rewrite En in Ek. inversion Ek; subst c'.
-        exists c. split; [assumption|]. split; [reflexivity|]. intros _. right. reflexivity.
+        exists c. split; [assumption|]. split; [reflexivity|]. split; [intros _; right; reflexivity|right; reflexivity].
       * exists c'. repeat split; auto.
 Qed.
 
